@@ -57,6 +57,7 @@ func genReplica(t *rapid.T, blocks []ck.BlockSpec, allowDisk bool) Replica {
 	}
 	r.Opts.NoVerifyTx = rapid.IntRange(0, 3).Draw(t, "noverify") == 0
 	r.Opts.SaveStorageBatch = rapid.IntRange(0, 3).Draw(t, "ssb") == 0
+	r.Opts.SaveInvocations = rapid.IntRange(0, 2).Draw(t, "saveinv") == 0
 	style := rapid.IntRange(0, 5).Draw(t, "style") // 0 never flush, 1 every block, 2/3 drawn, 4/5 restart/flush right after governance blocks
 	for i := 0; i < nblocks; i++ {
 		s := 0
@@ -109,10 +110,82 @@ func genCase(t *rapid.T) Case {
 		}
 		c.Blocks[j].Txs = append(c.Blocks[j].Txs, end)
 	}
+	// Re-election storyline (aimed at per-candidate cached values that must die with the candidate): the genesis
+	// holder votes a candidate into the committee, rewards accrue for some blocks, the candidate loses the votes
+	// and unregisters (its records are dropped), later it registers again and is voted in again.
+	reelect := -1
+	cs, _ := c.Chain.Sizes()
+	if rapid.IntRange(0, 5).Draw(t, "reelect") == 0 {
+		for len(c.Blocks) < 3*cs+12 {
+			c.Blocks = append(c.Blocks, ck.GenBlock(t, bias, 2))
+			c.Extras = append(c.Extras, nil)
+		}
+		n = len(c.Blocks)
+		cand := rapid.IntRange(0, ck.NCandidates-1).Draw(t, "re_cand")
+		nonce := rapid.Uint32().Draw(t, "re_nonce")
+		at := rapid.IntRange(0, 2).Draw(t, "re_at")
+		drop := at + 2 + cs + rapid.IntRange(1, 3).Draw(t, "re_hold")
+		again := drop + 2 + rapid.IntRange(0, 2).Draw(t, "re_gap")
+		add := func(i int, a ck.Action) {
+			if i < n {
+				a.Nonce = nonce
+				nonce++
+				c.Blocks[i].Txs = append(c.Blocks[i].Txs, a)
+			}
+		}
+		add(at, ck.Action{Kind: "register", From: ck.NAccounts + cand, A: cand})
+		add(at+1, ck.Action{Kind: "vote", From: ck.PValidators, A: cand})
+		if rapid.Bool().Draw(t, "re_unvote_first") {
+			add(drop, ck.Action{Kind: "vote", From: ck.PValidators, A: -1})
+			add(drop+1, ck.Action{Kind: "unregister", From: ck.NAccounts + cand, A: cand})
+		} else {
+			add(drop, ck.Action{Kind: "unregister", From: ck.NAccounts + cand, A: cand})
+			add(drop+1, ck.Action{Kind: "vote", From: ck.PValidators, A: -1})
+		}
+		add(again, ck.Action{Kind: "register", From: ck.NAccounts + cand, A: cand})
+		add(again+1, ck.Action{Kind: "vote", From: ck.PValidators, A: cand})
+		reelect = drop + 1
+	}
+	// Find storyline (aimed at range reads served by the backend): several items under one prefix are written,
+	// later (after flushes on the replicas) a transaction iterates over them and returns what it found.
+	if n >= 4 && rapid.IntRange(0, 3).Draw(t, "findstory") == 0 {
+		ct := rapid.IntRange(0, 1).Draw(t, "fs_contract")
+		pfx := rapid.SampledFrom([]string{"s", "st", "q"}).Draw(t, "fs_prefix")
+		nonce := rapid.Uint32().Draw(t, "fs_nonce")
+		i := rapid.IntRange(0, n-2).Draw(t, "fs_at")
+		c.Blocks[i].Txs = append(c.Blocks[i].Txs, ck.Action{Kind: "multi_put", From: rapid.IntRange(0, 3).Draw(t, "fs_from"), A: ct, N: int64(rapid.IntRange(2, 7).Draw(t, "fs_n")), K: vt.Bytes(pfx), V: vt.Bytes("value-" + pfx), Nonce: nonce})
+		for k := rapid.IntRange(1, 3).Draw(t, "fs_finds"); k > 0; k-- {
+			j := rapid.IntRange(i+1, n-1).Draw(t, "fs_find_at")
+			c.Blocks[j].Txs = append(c.Blocks[j].Txs, ck.Action{Kind: "invoke", S: "find", From: rapid.IntRange(0, 3).Draw(t, "fs_from2"), A: ct, K: vt.Bytes(pfx[:1]), N: int64(rapid.SampledFrom([]int{0, 0, 2, 4, 8, 16}).Draw(t, "fs_opts")), Nonce: nonce + uint32(k)})
+		}
+	}
+	// Whitelist storyline (aimed at cached policy records that are updated in place): a fixed fee is set for a
+	// contract method, changed later, and the method is invoked after each change.
+	if n >= 5 && rapid.IntRange(0, 4).Draw(t, "wlstory") == 0 {
+		ct := rapid.IntRange(0, 1).Draw(t, "wl_contract")
+		nonce := rapid.Uint32().Draw(t, "wl_nonce")
+		i := rapid.IntRange(0, n-4).Draw(t, "wl_at")
+		j := rapid.IntRange(i+2, n-2).Draw(t, "wl_change")
+		payer := 4 + rapid.IntRange(0, 1).Draw(t, "wl_payer")
+		set := func(at int, fee int64, k uint32) {
+			c.Blocks[at].Txs = append(c.Blocks[at].Txs, ck.Action{Kind: "policy", S: "setWhitelistFeeContract", From: payer, A: ct, K: vt.Bytes("put"), N: fee, Nonce: nonce + k})
+		}
+		use := func(at int, k uint32) {
+			c.Blocks[at].Txs = append(c.Blocks[at].Txs, ck.Action{Kind: "invoke", S: "put", From: rapid.IntRange(0, 3).Draw(t, "wl_user"), A: ct, K: vt.Bytes("wl"), V: vt.Bytes("v"), Nonce: nonce + k})
+		}
+		set(i, rapid.SampledFrom([]int64{0, 1000, 5000000}).Draw(t, "wl_fee1"), 0)
+		use(i+1, 1)
+		set(j, rapid.SampledFrom([]int64{1, 77777, 20000000}).Draw(t, "wl_fee2"), 2)
+		use(j+1, 3)
+	}
 	nr := rapid.IntRange(1, 3).Draw(t, "nreplicas")
 	disk := rapid.IntRange(0, 2).Draw(t, "disk") == 0
 	for i := 0; i < nr; i++ {
 		c.Replicas = append(c.Replicas, genReplica(t, c.Blocks, disk))
+	}
+	if reelect >= 0 && reelect < len(c.Replicas[0].Sched) {
+		// the first replica forgets everything it carried in memory once the candidate is gone
+		c.Replicas[0].Sched[reelect] |= 2
 	}
 	return c
 }
